@@ -28,3 +28,9 @@ CLAIMS["C04"] = dict(
     text="Every program of the option matrix (all option kinds, with/without `if`, alone and in ordered pairs, config/menuconfig/choice/menu/comment), every expression of the alphabet (all symbol forms, operators, precedence probes) in every expression position, every structure shape with <=3 (quick) / <=4 (thorough) entries incl. all four source kinds and macros, ~50 lexical variants and every Kconfig fixture under test/ is parsed with parser_version=1 and 2: accept/reject, a full structural dump (node order, nesting, types, prompts, help, every condition via expr_str, defaults/ranges/selects/implies/sets, reverse dependencies) and sdkconfig/header/JSON in the default and every single-option-perturbed configuration must agree.",
     note="Sources outside the documented language (negative family) are recorded but never alarmed; Kconfig.menus/.choices/.comments flat lists compared as multisets (tree order is compared through node_iter).",
 )
+CLAIMS["C09"] = dict(
+    category="exploration",
+    technique="bounded exhaustive enumeration: every acyclic base tree x every ordered option pair x 24 dependency-edge kinds gives one mutated tree; reference dependency graph decides cyclic/acyclic; real loader + evaluator executed",
+    text="Each base tree (one per dependency-edge kind and all 2-hop chains) and every tree obtained from it by adding ONE reference 'X mentions Y' of each edge kind (depends, prompt if, default value/condition, range bounds/condition, select, imply, set/set default source/condition/value symbol, if, menu depends/visible if, choice prompt/default/depends, member prompt) is loaded by the real Kconfig(). Where the reference graph has a cycle the loader must raise KconfigError 'Dependency loop' and the items it names must form a cycle of the reference graph; where it has none the tree must load and every observation/output must be computable in every configuration of the value domain without exception.",
+    note="Reference dependency graph in mck/checks/c09.py + refsem.dep_graph; member-mentions-sibling-member and defaults/select/imply on choice members excluded (documents silent / not well-formed).",
+)
